@@ -5,7 +5,31 @@ import json, subprocess
 CHECKS = {}
 NA = {}
 
+# what was added after the seeded-mutation campaign (DESIGN.md §10.2), appended to the level text
+EXTRA = {
+ "C01": " Added later: a replica that stops and reopens after every block; black-list-only service updates aimed at pairs that carry traffic; Ethereum-format transactions (transfers, deployments, calls, reverts, rejections before/after the gas purchase).",
+ "C02": " Added later: every executed block is also fed to the real InterchainRouter (live subscription and replay query): each chain's wrapper must carry exactly the block's delivery entries, roots and height; a service addressing itself and two services of one chain are among the pairs.",
+ "C03": " Added later: inter-hub IBTPs whose proof bytes do not hash to the committed value although the signatures are valid.",
+ "C04": " Added later: every sixth case runs transactions between two BitXHubs seen from the source hub (requests to a remote hub, receipts signed by its validators, begin-failure / rollback notices) against a reference model.",
+ "C05": " Added later: the router's delivery sets (live and replay path) must carry the block's multi-tx notifications for every chain.",
+ "C06": " Added later: every third case runs one-to-many groups: a group's begun children are listed as timed out for the source chain exactly once, in block firstH+T, only if the group neither finished nor failed before; the router's wrappers must carry the block's timeout notifications.",
+ "C07": " Added later: Ethereum-format transactions in the mixed blocks; a fee oracle (a failed transaction costs its sender exactly gas used x price, or its whole balance).",
+ "C08": " Added later: envelope fields absent on the wire (From, To, payload, signature), odd Ethereum-format transactions.",
+ "C09": " Added later: every fourth case drives the ledger's own interface (PersistBlockData, Rollback) with synthetic blocks: delivery entries marked invalid, several chains per block, empty blocks, rollbacks in a row.",
+ "C10": " Added later: variant balance-by-delta (the same final balance reached by credits and debits). The known finding 'reverted write on a new account' was repaired later (e5a2e9d8); two remain.",
+ "C11": " Added later: height 0 (the commit of the genesis block itself) and a crash block that creates accounts with code and storage (EVM constructor storing a word, WASM deployment).",
+ "C12": " Added later: the running ledger itself is read right before every rollback and at the end of each history (its caches must hold the restored-and-continued state).",
+ "C13": " Added later: after every commit the running ledger (cache) and a cache-less ledger over the same store must answer identically, found-flag included; slot locality in the generator.",
+ "C14": " Added later: a transfer that covers the amount but not the fee, sent after an earlier transaction of the block touched the receiver.",
+ "C15": " Added later: an admin frozen with a pending activation (or a pending logout requested while frozen) is unavailable: votes by such admins are judged; freeze/activate/logout of weight-1 admins and votes aimed at proposals whose electorate lists them.",
+ "C16": " Added later: master-rule changes; appchain-level gating (an approved freeze or logout of an appchain makes all its services unusable whatever the service record says); black-list-only updates; a scripted opening (freeze, rule change on the frozen chain, approval); probes aimed at chains and pairs whose status just changed.",
+ "C17": " Added later: three more callers who are 'everyone else': the admin of an appchain whose id differs from the victim's only in letter case, a governance admin frozen by a vote, and one who then asked for his own logout.",
+ "C18": " Added later: blocks produced elsewhere (commit of transactions the pool never held while the ledger's nonce advances, clients re-sending committed transactions, MarkBatched for blocks minted elsewhere).",
+ "C19": " Added later: the same foreign-block operations as C18; every 25th case drives the pool's front buffer (TxCache) with consumers of different pace: every transaction comes out exactly once, in order, and a set does not change after it was handed over.",
+}
+
 def check(pid, cat, text, note, technique, design_ref):
+    text = text + EXTRA.get(pid, "")
     CHECKS[pid] = dict(property_id=pid, quick_cmd=f"./check {pid} quick", thorough_cmd=f"./check {pid} thorough",
         evidence_file=f"/verif/evidence/{pid}.json", replay_cmd_template=f"./check {pid} --replay {{path}}",
         engine="vcheck", level_claimed=dict(category=cat, text=text, design_ref=design_ref), level_note=note, technique=technique)
@@ -28,7 +52,7 @@ check("C12", "exploration",
   "Trusts model/kv.go. The executor-level clause (re-executing the same blocks reproduces the same block hashes, rollbackBlocks path) is exercised by the replica workload shared with C09. Window size is the hard-coded 10.",
   "runtime monitoring: recorded per-height reference states compared after rollback + root re-execution oracle", "DESIGN.md §5 C12")
 check("C10", "exploration",
-  "State root: one write set realised on 6 forks by different histories (order, tx split, redundant writes, reads, reverted snapshots, restore-to-original, warm/cold/tiny cache) must give one root; every single-field perturbation must change it. Three genuine deviations are recorded as known findings (account touched-but-unchanged hashed; reverted write on a new account leaves a zero account; delete of the empty-named key contributes no bytes).",
+  "State root: one write set realised on 6 forks by different histories (order, tx split, redundant writes, reads, reverted snapshots, restore-to-original, warm/cold/tiny cache) must give one root; every single-field perturbation must change it. Genuine deviations are recorded as known findings (account touched-but-unchanged hashed; delete of the empty-named key contributes no bytes).",
   "Trusts sha256; un-length-prefixed concatenation ambiguity needing two coordinated changes is outside 'single-field'. Tx/receipt roots: decided by the independent Merkle recomputation of the C09 audit.",
   "runtime monitoring: differential execution of one write set over forked ledgers + perturbation sensitivity oracle", "DESIGN.md §5 C10")
 
@@ -93,7 +117,7 @@ check("C11", "fault_enumeration",
   "runtime monitoring + fault injection: exhaustive composition of per-component crash images and SIGKILL at hook points, each recovered by the real ledger in a child process and compared with a never-crashed reference", "DESIGN.md §5 C11")
 
 check("C20", "fault_enumeration",
-  "Every replica is a separate OS process running the real etcd-raft (3 or 4 replicas) or solo order node behind a parent-process network that loses, duplicates, delays and reorders messages and isolates nodes; replicas are killed with SIGKILL at random moments, at the hook points around mint / recording the applied index and before/after the executor's durable write, and restarted from their data directories; clients re-send committed and uncommitted transactions. A stand-in executor logs every delivered block durably before reporting state. Offline oracle on the logs: heights delivered to each replica are exactly last+1 across all incarnations, every height has identical transactions and timestamp on all replicas, no transaction is in two heights, nothing unsubmitted is delivered, no committed batch above lastExec+1 is ever ignored. SyncCFTBlocks is enumerated completely for 1<=begin<=end<=40 x fetch {1,2,3,5,7}. Five genuine defects were found and repaired (fork after crash behind a snapshot, stuck replica after a crash during snapshot catch-up, three causes of a transaction delivered in two blocks).",
+  "Every replica is a separate OS process running the real etcd-raft (3 or 4 replicas) or solo order node behind a parent-process network that loses, duplicates, delays and reorders messages and isolates nodes; replicas are killed with SIGKILL at random moments, at the hook points around mint / recording the applied index and before/after the executor's durable write, and restarted from their data directories; clients re-send committed and uncommitted transactions. A stand-in executor logs every delivered block durably before reporting state. Offline oracle on the logs: heights delivered to each replica are exactly last+1 across all incarnations, every height has identical transactions and timestamp on all replicas, no transaction is in two heights, nothing unsubmitted is delivered, no committed batch above lastExec+1 is ever ignored. SyncCFTBlocks is enumerated completely for 1<=begin<=end<=40 x fetch {1,2,3,5,7}. Six genuine defects were found and repaired (fork after crash behind a snapshot, stuck replica after a crash during snapshot catch-up, four causes of a transaction delivered in two blocks). The stand-in executor's report lags behind the delivery by a scenario-determined amount; half of the partitions hit the busiest replica (the presumed leader) right after a burst.",
   "The executor is a stand-in (the executor/ledger pair is C11's subject); messages are never corrupted; schedules are sampled (timing only selects them, no verdict depends on wall-clock); smart-BFT ordering is not linked in this tree's default build and is not covered.",
   "runtime monitoring + fault injection: multi-process cluster under a hostile in-memory network and SIGKILL at hook points, offline checker over durable per-replica delivery logs; exhaustive enumeration of sync ranges", "DESIGN.md §5 C20")
 
